@@ -230,6 +230,9 @@ func (w *World) verifyBehavior(rep *FuncReport, fn *ssa.Function, spec *FuncSpec
 				continue
 			}
 			x.oblige(st2, "post", name, propsOf(c, beh, spec), t, c.Text, w.pos(fn.Pos()))
+			if n := len(x.obls); n > 0 && x.obls[n-1].Name == name && x.obls[n-1].Result == "" {
+				x.obls[n-1].Replay = x.replaySpecFor(fn, params, st2, res)
+			}
 			if kf := w.Known[name]; kf != nil && kf.Residual != "" {
 				// a listed known finding suppresses nothing beyond its carve-out: outside it the clause must still hold
 				if ge, err := ParseCExpr(kf.Residual); err != nil {
